@@ -62,7 +62,7 @@ func ZZ_C03_SRV() {
 	small := zz.Choose("smallmax", 2) == 1
 	r := zzRun(wire, 0, stream, func(s *Server) {
 		if small {
-			s.MaxRequestBodySize = 3
+			s.MaxRequestBodySize = 1 // every template body but the one-byte one is over the limit, the Expect: 100-continue ones included
 		}
 	})
 	finals, lastStatus, lastClose, firstErrAt, ok := zzCountResponses(r.out)
@@ -190,4 +190,26 @@ func ZZ_C03_MP() {
 			zz.Assert("refusal-is-one-4xx-with-connection-close", n == 1 && last.status/100 == 4 && last.close)
 		}
 	}
+}
+
+// ZZ_C03_LIMIT: "a request whose body exceeds the configured limit is rejected - with buffered
+// bodies always": every template request that has a body (fixed length, chunked, with and
+// without Expect: 100-continue, HTTP/1.0, GET/HEAD with a body), buffered mode, the limit one
+// byte below the body length, delivered whole or byte-wise: exactly one 4xx with Connection:
+// close (after at most an interim 100 Continue), no handler, nothing afterwards.
+func ZZ_C03_LIMIT() {
+	withBody := []int{1, 2, 4, 7, 9, 10} // (template 8 has a one-byte body: no positive limit lies below it)
+	t := withBody[zz.Choose("tmpl", len(withBody))]
+	tp := zzTemplates[t]
+	wire := append([]byte(tp.wire), zzSentinel...)
+	frag := zz.Choose("bytewise", 2)
+	r := zzRun(wire, frag, false, func(s *Server) {
+		s.MaxRequestBodySize = len(tp.body) - 1
+	})
+	finals, lastStatus, lastClose, _, ok := zzCountResponses(r.out)
+	zz.Cover("reached-assert", true)
+	zz.Assert("only-well-formed-responses-on-the-wire", ok)
+	zz.Assert("no-handler-for-the-over-limit-request", len(r.seen) == 0)
+	zz.Assert("exactly-one-4xx-carrying-connection-close", finals == 1 && lastStatus >= 400 && lastStatus < 500 && lastClose)
+	zz.Assert("serve-ends-the-connection", r.err != nil)
 }
